@@ -20,7 +20,7 @@ if echo "$CMD" | grep -q pp_demo; then
   PPDEMO=1; TEST=${TEST:-seeded_demo}
   rm -rf pp_demo; cp -r /verif/scripts/pp_demo pp_demo; mkdir -p pp_demo/tests; cp "$DEMO" pp_demo/tests/$TEST.rs
   cp /repo/Cargo.lock pp_demo/Cargo.lock
-  RUN="cargo test --offline --manifest-path pp_demo/Cargo.toml --test $TEST"
+  RUN="env -C pp_demo cargo test --offline --test $TEST"
   TESTDIR=pp_demo/tests
 else
 [ -n "$PKG" ] && [ -n "$TEST" ] || { echo "cannot parse demo command: $CMD"; exit 2; }
